@@ -18,9 +18,14 @@
 //       merge_advance_usual / merge_advance_movc with two DIFFERENT iterator types, DiffType in {int, long, unsigned,
 //       size_t} and a std::back_inserter output.              types T, B
 //   P7  as P6 with raw pointers into one buffer.               type I
+//   P8  public entry points / multiway_merge_base, checking iterators, separate heap blocks, with an element type S whose
+//       key OWNS a heap cell and whose destructor poisons the cell (writes INT_MIN) before freeing it: any place that
+//       keeps the address of a temporary or of a by-value parameter (e.g. the sentinel of the unguarded pointer trees)
+//       reads freed memory (ASan) or a minimal key (padding wins).  24 bytes: pointer-based trees.   type S
 // The executable is built in three parts (-DAPI_PART=1|2|3) to keep compile time down; a part answers only its cases.
 #include <tlx/algorithm/multiway_merge.hpp>
 
+#include <climits>
 #include <csignal>
 #include <cstdio>
 #include <cstdlib>
@@ -52,7 +57,19 @@ struct Rec40 { int key; int seq; long pos; char payload[24];
 static_assert(sizeof(Rec16) == 2 * sizeof(size_t), "largest copy-tree type");
 static_assert(sizeof(Rec24) == 3 * sizeof(size_t), "smallest pointer-tree type");
 
+// key lives in an owned heap cell; the destructor poisons it
+struct RecOwn {
+    int* cell; int seq; long pos;
+    RecOwn() : cell(new int(0)), seq(-7), pos(-7) {}
+    RecOwn(int k, int s, long p) : cell(new int(k)), seq(s), pos(p) {}
+    RecOwn(const RecOwn& o) : cell(new int(*o.cell)), seq(o.seq), pos(o.pos) {}
+    RecOwn& operator=(const RecOwn& o) { *cell = *o.cell; seq = o.seq; pos = o.pos; return *this; }
+    ~RecOwn() { *cell = INT_MIN; delete cell; }
+};
+static_assert(sizeof(RecOwn) > 2 * sizeof(size_t), "RecOwn selects the pointer trees");
+
 static int key_of(int v) { return v; }
+static int key_of(const RecOwn& r) { return *r.cell; }
 template <typename R> static int key_of(const R& r) { return r.key; }
 struct KeyLess { template <typename R> bool operator()(const R& a, const R& b) const { return key_of(a) < key_of(b); } };
 struct KeyGreater { template <typename R> bool operator()(const R& a, const R& b) const { return key_of(a) > key_of(b); } };
@@ -67,7 +84,7 @@ template <> struct Make<int> { static int elem(int k, int, long) { return k; } }
 
 static const int MIRROR = 1000000;
 static void show(std::ostream& os, int v, bool mirror) { os << (mirror ? MIRROR - v : v); }
-template <typename R> static void show(std::ostream& os, const R& r, bool mirror) { os << (mirror ? MIRROR - r.key : r.key) << ':' << r.seq << ':' << r.pos; }
+template <typename R> static void show(std::ostream& os, const R& r, bool mirror) { os << (mirror ? MIRROR - key_of(r) : key_of(r)) << ':' << r.seq << ':' << r.pos; }
 
 template <typename T> struct Wide {   // an output value type different from T
     T v; long extra;
@@ -285,8 +302,8 @@ static void profile_deque_wide(const Case& c, Comp comp, std::ostream& os) {    
 }
 
 template <typename T, typename Comp>
-static void profile_onebuf_cit(const Case& c, Comp comp, bool mirror, int how, std::ostream& os) {   // P4, P5
-    Blocks<T> b; fill_blocks(b, c, true, mirror);
+static void profile_onebuf_cit(const Case& c, Comp comp, bool mirror, int how, std::ostream& os, bool onebuf = true) {   // P4, P5, P8
+    Blocks<T> b; fill_blocks(b, c, onebuf, mirror);
     size_t k = c.keys.size();
     std::vector<std::pair<CIt<T>, CIt<T>>> seqs(k);
     for (size_t i = 0; i < k; ++i) {
@@ -379,6 +396,7 @@ static int part_of(int profile, const std::string& e) {
     case 5: return 1;
     case 6: return 3;
     case 7: return 2;
+    case 8: return 1;
     default: return 0;
     }
 }
@@ -420,6 +438,7 @@ int main(int argc, char** argv) {
         if (c.profile == 1 && e == "I") profile_ptr_base<int>(c, std::less<int>(), os);
         else if (c.profile == 1) profile_ptr_base<Rec16>(c, KeyLess(), os);
         else if (c.profile == 3) profile_deque_wide<Rec16>(c, KeyLess(), os);
+        else if (c.profile == 8) profile_onebuf_cit<RecOwn>(c, KeyLess(), false, (c.r % 2) ? 3 : 0, os, false);
         else { long calls = 0; profile_onebuf_cit<Rec16>(c, CountLess(&calls), false, 0, os); }
 #elif API_PART == 2
         if (c.profile == 1 && e == "M") profile_ptr_base<Rec24>(c, KeyLess(), os);
